@@ -6,10 +6,12 @@ import (
 	"os"
 	"path/filepath"
 	"strconv"
+	"strings"
 	"sync"
 	"time"
 
 	"istio.io/istio/pkg/security"
+	nacache "istio.io/istio/security/pkg/nodeagent/cache"
 )
 
 // Op `outdir <N> <ms>` (stream conc): security.Options.OutputKeyCertToDir set, i.e. the deferred writer of
@@ -36,6 +38,9 @@ func runOutdir(t []string) string {
 	s := newSUTOutputDir(dir)
 	defer s.close()
 	s.ca.script = func(i int) caOutcome {
+		if i%7 == 3 {
+			return caOutcome{kind: "signerr", signer: 'A', bundle: "-"} // a failing CA: nothing may be written for it
+		}
 		return caOutcome{kind: "ok", ttl: time.Hour, signer: byte('A' + (i/2)%2), bundle: "-"}
 	}
 	var mu sync.Mutex
@@ -86,10 +91,7 @@ func runOutdir(t []string) string {
 					if (g+k)%4 == 0 {
 						name = security.RootCertReqResourceName
 					}
-					if _, err := s.sc.GenerateSecret(name); err != nil {
-						fail("gen-error " + err.Error())
-						return
-					}
+					_, _ = s.sc.GenerateSecret(name) // every 7th CA call fails: the caller gets the error
 				}
 			})
 		}
@@ -114,6 +116,8 @@ func runOutdir(t []string) string {
 				time.Sleep(300 * time.Microsecond)
 			}
 		})
+		// configured anchors change between bursts: root-cert.pem is the merged bundle
+		s.updateBundle([]byte(strings.Join(bundlePEMs([]string{"C", "CD", "D"}[round%3]), "")))
 		time.Sleep(8 * time.Millisecond)
 		close(stop)
 		wg.Wait()
@@ -125,6 +129,7 @@ func runOutdir(t []string) string {
 	if violation != "" {
 		return "violated outdir-" + violation
 	}
+	s.ca.script = func(int) caOutcome { return caOutcome{kind: "ok", ttl: time.Hour, signer: 'A', bundle: "-"} }
 	it, err := s.sc.GenerateSecret(security.WorkloadKeyCertResourceName)
 	if err != nil {
 		return "violated outdir-gen-error"
@@ -136,7 +141,8 @@ func runOutdir(t []string) string {
 	if err != nil {
 		return "violated outdir-gen-error"
 	}
-	if !bytes.Equal(read("root-cert.pem"), rt.RootCert) || nonCARoot(read("root-cert.pem")) {
+	if !bytes.Equal(read("root-cert.pem"), rt.RootCert) || nonCARoot(read("root-cert.pem")) ||
+		!containsAll(rootLetters(rt.RootCert), lettersOrDash(nacache.VerifConfigTrustBundle(s.sc))) {
 		return "violated outdir-stale root file differs from the answer"
 	}
 	return "ok files"
